@@ -222,20 +222,24 @@ def run_pack(chk: Check):
     for i in range(n):
         risky = (i % 5 == 4)
         data = gen_payload(rng, 0, risky)
-        to = rng.choice(['r', 'worker~1', 'aaaaa', '', None]) if i % 3 == 0 else 'r'
-        if to == '':
-            to = 'r'
+        to = rng.choice(['r', 'worker~1', 'aaaaa', '', None, '0', ' ', '~a3~', 'ñ~~~~~', 'a' * 12, '"', '\\']) if i % 3 == 0 else 'r'
+        if risky and i % 15 == 14:
+            to = rng.choice(['f{x', '\\e[1m'])
+            data = rng.choice(['x', 'plain', 7])      # one cause per case
         chk.case('pack:' + json.dumps([to, data], sort_keys=True, default=str), nontrivial=bool(data))
         chk.count('pack.risky' if risky else 'pack.plain')
-        why = roundtrip_fails(data, to) if to is not None else roundtrip_fails(data, None) if False else roundtrip_fails(data, to or 'r')
+        chk.count('pack.to.' + ('none' if to is None else 'empty' if to == '' else 'text'))
+        why = roundtrip_fails(data, to)
         if why:
-            small = shrink_payload(data, lambda d: roundtrip_fails(d, to or 'r') is not None)
-            why = roundtrip_fails(small, to or 'r')
-            feats = features(small)
+            small = shrink_payload(data, lambda d: roundtrip_fails(d, to) is not None)
+            why = roundtrip_fails(small, to)
+            feats = features(small) | {'recipient-' + f for f in features(to)}
+            if why == 'recipient-differs' and not feats and roundtrip_fails(small, 'r') is None:
+                feats = {'recipient:' + ('none' if to is None else 'empty' if to == '' else 'text')}
             sig = 'pack:' + ('+'.join(sorted(feats)) if feats else 'other:' + why)
-            chk.violation(sig, f'unpack(pack(p)) != p: {why} for data={small!r}',
+            chk.violation(sig, f'unpack(pack(p)) != p: {why} for to={to!r} data={small!r}',
                           {'oracle': 'pack/unpack round trip', 'to': to, 'data': small, 'why': why,
-                           'packed': pack(Packet(to=to or 'r', data=small))})
+                           'packed': pack(Packet(to=to, data=small))})
     chk.sample({'pack': pack(Packet(to='r', data={'k': ['aaaaa~', 1]}))})
 
 
@@ -322,6 +326,72 @@ def run_queue(chk: Check, mr: ModelRun):
                               {'correspondence': 'Q3 queue', 'ops': sx(ops), 'impl': delivered, 'model': mdel})
         chk.obligation('Q3:PacketzQueue vs Queue.v on op histories', 'correspondence', bad == 0)
         chk.sample({'queue_ops': sx(expect[0][0]), 'delivered': expect[0][1]})
+
+        # ---- several live receive() generators on ONE reader object, advanced in any order, sends in between
+        ngen = 200 if chk.quick else 4000
+        greqs, gexp = [], []
+        for it in range(ngen):
+            path = tmp / f'g{it}.jsonl'
+            q = PacketzQueue(path=path)
+            ops, ids, sent, delivered, gens, live = [], {}, [], [], [], []
+            for _ in range(rng.randint(2, 12)):
+                r = rng.random()
+                if r < 0.35:
+                    pkt = q.send(to='r', data=gen_payload(rng))
+                    if pkt.id in ids:
+                        chk.count('queue.id_collisions')
+                    ids.setdefault(pkt.id, len(ids) + 1)
+                    sent.append(ids[pkt.id])
+                    ops.append([Atom('send'), [Atom('good'), ids[pkt.id]]])
+                elif r < 0.42:
+                    with path.open('at', encoding='utf-8') as f:
+                        f.write('not a packet at all\n')
+                    ops.append([Atom('send'), Atom('corrupt')])
+                elif r < 0.6 or not gens:
+                    gens.append(iter(q.receive()))
+                    live.append(True)
+                    ops.append(Atom('open'))
+                else:
+                    j = rng.randrange(len(gens))
+                    ops.append([Atom('next'), j])
+                    try:
+                        pkt = next(gens[j])
+                        delivered.append(ids.get(pkt.id, -1))
+                    except StopIteration:
+                        live[j] = False
+            # drain with a fresh generator: nothing may be left or repeated
+            ops.append(Atom('open'))
+            gens.append(iter(q.receive()))
+            live.append(True)
+            while True:
+                ops.append([Atom('next'), len(gens) - 1])
+                try:
+                    pkt = next(gens[-1])
+                    delivered.append(ids.get(pkt.id, -1))
+                except StopIteration:
+                    live[-1] = False
+                    break
+            greqs.append(f'(genqueue {sx(ops)})')
+            gexp.append((ops, delivered, sent, list(live)))
+            chk.case('genqueue:' + sx(ops), nontrivial=len(ops) > 4)
+            chk.count('queue.generator-histories')
+            if len(set(sent)) == len(sent) and delivered != sent:
+                chk.violation('oracle:queue-generators-order', 'overlapping receive() generators: packets not delivered exactly once in send order',
+                              {'oracle': 'exactly once, in order (generators)', 'ops': sx(ops), 'delivered': delivered, 'sent': sent})
+            for g in gens:
+                g.close()
+            path.unlink(missing_ok=True)
+        gbad = 0
+        for (ops, delivered, sent, live), rep in zip(gexp, mr.ask(greqs)):
+            if len(set(sent)) != len(sent):
+                continue
+            mdel = [int(x) for x in rep[1]] if rep[1] != 'nil' else []
+            mlive = [x == '1' for x in rep[2]] if rep[2] != 'nil' else []
+            if mdel != delivered or mlive != live:
+                gbad += 1
+                chk.violation('corr:queue-generators', 'PacketzQueue with overlapping generators differs from the model',
+                              {'correspondence': 'Q3 generators', 'ops': sx(ops), 'impl': delivered, 'model': mdel, 'impl_live': live, 'model_live': mlive})
+        chk.obligation('Q3:overlapping receive() generators vs QueueGen.v', 'correspondence', gbad == 0)
 
         # truncation at every byte offset of the last record
         ntr = 12 if chk.quick else 200
